@@ -23,6 +23,8 @@ const RULES_C: &str = "rule qa { l[*].x in m[*] <<qa>> }\nrule qb { l[*].x in m 
 const DATA: [&str; 3] = ["{\"a\":2,\"b\":2,\"l\":[{\"x\":1},{\"x\":3},{\"y\":0},{\"x\":4},{\"x\":6}],\"m\":[7,8,9,1],\"n\":{\"k1\":5,\"k2\":6,\"k3\":7,\"j\":8}}", "{\"a\":1,\"b\":1,\"l\":[{\"x\":1}],\"m\":[1],\"n\":{\"k1\":1}}", "{\"b\":0,\"l\":[]}"];
 const CFN_RULES: &str = "rule s3 { Resources.*[ Type == 'AWS::S3::Bucket' ].Properties.Name == \"x\" <<name>> }\nrule vol { AWS::EC2::Volume { Properties.Size <= 10 <<size>> } }\nrule cased { resources.*.properties.bucket_name exists }\n";
 const CFN_DATA: &str = "{\n  \"Resources\": {\n    \"b1\": {\"Type\": \"AWS::S3::Bucket\", \"Properties\": {\"Name\": \"y\", \"BucketName\": \"q\"}},\n    \"b2\": {\"Type\": \"AWS::S3::Bucket\", \"Properties\": {\"Name\": \"x\", \"bucketName\": \"r\"}},\n    \"v1\": {\"Type\": \"AWS::EC2::Volume\", \"Properties\": {\"Size\": 50, \"bucket_name\": 1}}\n  }\n}\n";
+const TF_RULES: &str = "rule names { resource_changes[*].change.after.name == \"x\" <<name>> }\nrule sizes { resource_changes[*].change.after.size <= 10 <<size>> }\nrule tagged { resource_changes[*].change.after.tags in [[\"a\"], [\"b\"]] }\n";
+const TF_DATA: &str = "{\n \"resource_changes\": [\n  {\"address\": \"aws_s3_bucket.b1\", \"change\": {\"after\": {\"name\": \"y\", \"size\": 50, \"tags\": [\"q\"]}}},\n  {\"address\": \"aws_s3_bucket.b2\", \"change\": {\"after\": {\"name\": \"z\", \"size\": 5, \"tags\": [\"a\"]}}},\n  {\"address\": \"aws_ebs_volume.v1\", \"change\": {\"after\": {\"name\": \"x\", \"size\": 70, \"tags\": [\"r\"]}}},\n  {\"address\": \"aws_ebs_volume.v2\", \"change\": {\"after\": {\"name\": \"w\", \"size\": 80, \"tags\": [\"s\"]}}}\n ]\n}\n";
 const TEST_FILE: &str = "- name: one\n  input: {a: 1, b: 1, l: [{x: 1}]}\n  expectations:\n    rules:\n      ra: PASS\n      rb: FAIL\n      rc: SKIP\n      rd: PASS\n      re: FAIL\n      rf: PASS\n- name: two\n  input: {a: 2, b: 1, l: [{x: 2}]}\n  expectations:\n    rules:\n      ra: PASS\n      rb: PASS\n      rd: PASS\n      rf: FAIL\n";
 const TEMPLATE: &str = "{\"Resources\":{\"a\":{\"Type\":\"AWS::S3::Bucket\",\"Properties\":{\"P\":\"s\",\"Q\":5,\"R\":true}},\"b\":{\"Type\":\"AWS::S3::Bucket\",\"Properties\":{\"P\":\"t\",\"Q\":6,\"R\":true}},\"c\":{\"Type\":\"AWS::EC2::Volume\",\"Properties\":{\"P\":\"u\",\"Size\":1}},\"d\":{\"Type\":\"Custom::Thing\",\"Properties\":{\"Z\":[1,2]}}}}";
 
@@ -41,6 +43,8 @@ fn cases(dir: &str) -> Vec<Case> {
     let d: Vec<String> = DATA.iter().enumerate().map(|(k, t)| w(&format!("d{}.json", k), t)).collect();
     let cr = w("cfn.guard", CFN_RULES);
     let cd = w("cfn.json", CFN_DATA);
+    let tr = w("tf.guard", TF_RULES);
+    let td = w("tf.json", TF_DATA);
     let tf = w("t/tests/r5_tests.yaml", TEST_FILE);
     std::fs::write(format!("{}/t/r5.guard", dir), RULES5).unwrap();
     let tdir = format!("{}/t", dir);
@@ -60,7 +64,7 @@ fn cases(dir: &str) -> Vec<Case> {
         a.extend(sv(extra));
         a
     };
-    let sets: Vec<(&str, Vec<&String>, Vec<&String>)> = vec![("1x1", vec![&r5], vec![&d[0]]), ("2x3", vec![&r5, &rb], vec![&d[0], &d[1], &d[2]]), ("query-query", vec![&rc], vec![&d[0], &d[1]]), ("cfn", vec![&cr], vec![&cd]), ("cfn+generic", vec![&cr, &r5], vec![&cd])];
+    let sets: Vec<(&str, Vec<&String>, Vec<&String>)> = vec![("1x1", vec![&r5], vec![&d[0]]), ("2x3", vec![&r5, &rb], vec![&d[0], &d[1], &d[2]]), ("query-query", vec![&rc], vec![&d[0], &d[1]]), ("cfn", vec![&cr], vec![&cd]), ("terraform", vec![&tr], vec![&td]), ("cfn+generic", vec![&cr, &r5], vec![&cd])];
     for (sn, rs, ds) in &sets {
         for (mn, extra, cmp) in [
             ("summary-all", vec!["-S", "all"], "lines"),
